@@ -38,22 +38,33 @@ Proof.
   apply (in_combine_seq_nth None (nth f rows []) 0 t). lia.
 Qed.
 
-(** * Facts about [dfrag] *)
+(** * Facts about [dfrag]
 
-Lemma dfrag_design : forall fb f fd, dfrag fb = true -> nth_error (fl_design fb) f = Some fd ->
+    [dbase]: the part of [dfrag] about factors and sustain counts (shared with [efrag]) *)
+Definition dbase (fb : flat) : bool :=
+  forallb (ffrag_d fb) (fl_design fb)
+  && forallb (fun su => (1 <=? su) && (fl_trials fb mod su =? 0)) (fl_sustains fb).
+
+Lemma dfrag_dbase : forall fb, dfrag fb = true -> dbase fb = true.
+Proof.
+  intros fb H. unfold dfrag in H. rewrite !andb_true_iff in H. destruct H as [[[[H1 H2] _] _] _].
+  unfold dbase. rewrite H1, H2. reflexivity.
+Qed.
+
+Lemma dbase_design : forall fb f fd, dbase fb = true -> nth_error (fl_design fb) f = Some fd ->
   ff_hidden fd = false /\ 1 <= length (ff_levels fd) /\
   forall w, ff_window fd = Some w -> forall d, In d (win_deps w) -> dep_ok fb d = true.
 Proof.
-  intros fb f fd H E. unfold dfrag in H. rewrite !andb_true_iff in H. destruct H as [[[[H _] _] _] _].
+  intros fb f fd H E. unfold dbase in H. apply andb_prop in H. destruct H as [H _].
   rewrite forallb_forall in H. specialize (H fd (nth_error_In _ _ E)).
   unfold ffrag_d in H. rewrite !andb_true_iff in H. destruct H as [[H1 H2] H3].
   apply negb_true_iff in H1. apply Nat.leb_le in H2. split; auto. split; auto.
   intros w Hw d Hd. rewrite Hw in H3. rewrite forallb_forall in H3. auto.
 Qed.
 
-Lemma dfrag_su : forall fb f, dfrag fb = true -> 1 <= su_of fb f /\ fl_trials fb mod su_of fb f = 0.
+Lemma dbase_su : forall fb f, dbase fb = true -> 1 <= su_of fb f /\ fl_trials fb mod su_of fb f = 0.
 Proof.
-  intros fb f H. unfold dfrag in H. rewrite !andb_true_iff in H. destruct H as [[[[_ H] _] _] _].
+  intros fb f H. unfold dbase in H. apply andb_prop in H. destruct H as [_ H].
   rewrite forallb_forall in H. unfold su_of, sustain_of.
   assert (G : forall l acc, (forall cs, In cs l -> 1 <= snd cs /\ fl_trials fb mod snd cs = 0) ->
             (1 <= acc /\ fl_trials fb mod acc = 0) ->
@@ -67,22 +78,6 @@ Proof.
     specialize (H n Hcs). apply andb_prop in H. destruct H as [H1 H2].
     apply Nat.leb_le in H1. apply Nat.eqb_eq in H2. auto.
   - split; [lia | apply Nat.mod_1_r].
-Qed.
-
-Lemma dfrag_no_hidden : forall fb, dfrag fb = true -> no_hidden fb.
-Proof. intros fb H f fd E. apply (dfrag_design fb f fd H E). Qed.
-
-Lemma dfrag_cfrag : forall fb c, dfrag fb = true -> In c (fl_constraints fb) -> cfrag_d fb c = true.
-Proof.
-  intros fb c H Hin. unfold dfrag in H. rewrite !andb_true_iff in H. destruct H as [[_ H] _].
-  rewrite forallb_forall in H. auto.
-Qed.
-
-Lemma dfrag_xfrag : forall fb p, dfrag fb = true ->
-  In p (combine (seq 0 (length (fl_crossings fb))) (fl_crossings fb)) -> xfrag_d fb p = true.
-Proof.
-  intros fb p H Hin. unfold dfrag in H. rewrite !andb_true_iff in H. destruct H as [_ H].
-  rewrite forallb_forall in H. auto.
 Qed.
 
 (** * Where a factor applies *)
@@ -199,7 +194,7 @@ Proof. induction xs as [|x xs IH]; simpl; auto. rewrite IH. reflexivity. Qed.
 Section Window.
 Variable fb : flat.
 Variable rows : list (list (option nat)).
-Hypothesis Hfr : dfrag fb = true.
+Hypothesis Hfr : dbase fb = true.
 Hypothesis Hwf : wf_rows_d fb rows.
 Variable f : nat.
 Variable fd : ffactor.
@@ -217,7 +212,7 @@ Let dw : Sem.dwindow :=
      Sem.w_start := win_start w; Sem.w_table := map lv_accepts (ff_levels fd) |}.
 
 Lemma su_pos : 1 <= su.
-Proof. apply (dfrag_su fb f Hfr). Qed.
+Proof. apply (dbase_su fb f Hfr). Qed.
 
 Lemma i_group : i / su * su = i.
 Proof. unfold i. rewrite Nat.div_mul by (pose proof su_pos; lia). reflexivity. Qed.
@@ -243,7 +238,7 @@ Qed.
 Lemma dep_cell : forall d t, In d (win_deps w) -> t < fl_trials fb ->
   exists l, Sem.get_cell rows d t = Some l /\ l < nlev fb d.
 Proof.
-  intros d t Hd Ht. destruct (dfrag_design fb f fd Hfr Efd) as [_ [_ Hdeps]].
+  intros d t Hd Ht. destruct (dbase_design fb f fd Hfr Efd) as [_ [_ Hdeps]].
   pose proof (Hdeps w Ew d Hd) as Hok.
   apply (cell_some fb rows d t Hwf (dep_ok_lt fb d Hok) Ht (dep_ok_applies fb d t Hok)).
 Qed.
@@ -253,7 +248,7 @@ Lemma trial_arguments_d :
   = Ok (map (map parg_of_sem) (Sem.window_args rows (dfactor_of fb (f, fd)) dw i)).
 Proof.
   rewrite window_args_eq, map_map. unfold trial_arguments. apply map_res_ok. intros d Hd.
-  destruct (dfrag_design fb f fd Hfr Efd) as [_ [_ Hdeps]].
+  destruct (dbase_design fb f fd Hfr Efd) as [_ [_ Hdeps]].
   pose proof (Hdeps w Ew d Hd) as Hok. pose proof (dep_ok_lt fb d Hok) as Hdlt.
   destruct Hwf as [Hlen Hrows].
   rewrite row_of_rows by lia. cbn [bind]. rewrite map_map.
@@ -282,7 +277,7 @@ Proof.
   rewrite combine_map_r, forallb_map. apply forallb_forall. intros d Hd. cbn [fst snd].
   rewrite !map_length, seq_length. rewrite map_map, combine_map_r, forallb_map.
   apply forallb_forall. intros j Hj. apply in_seq in Hj. cbn [fst snd].
-  destruct (dfrag_design fb f fd Hfr Efd) as [_ [_ Hdeps]].
+  destruct (dbase_design fb f fd Hfr Efd) as [_ [_ Hdeps]].
   pose proof (Hdeps w Ew d Hd) as Hok.
   unfold wcell. set (back := (win_width w - 1 - j) * su).
   destruct (back <=? i) eqn:Eb.
@@ -312,7 +307,7 @@ Definition gs_ok (fb : flat) (rows : list (list (option nat))) (f : nat) (fd : f
   forallb (gs_cell fb rows f fd) (range_step (fl_trials fb) (su_of fb f)).
 
 Lemma test_trial_d : forall fb rows f fd q,
-  dfrag fb = true -> wf_rows_d fb rows -> nth_error (fl_design fb) f = Some fd ->
+  dbase fb = true -> wf_rows_d fb rows -> nth_error (fl_design fb) f = Some fd ->
   q * su_of fb f < fl_trials fb ->
   test_trial fb (cand_of_rows rows) f fd (q * su_of fb f) (su_of fb f) = Ok (gs_cell fb rows f fd (q * su_of fb f)).
 Proof.
@@ -336,13 +331,13 @@ Proof.
 Qed.
 
 Lemma factor_test_d : forall fb rows f fd,
-  dfrag fb = true -> wf_rows_d fb rows -> nth_error (fl_design fb) f = Some fd ->
+  dbase fb = true -> wf_rows_d fb rows -> nth_error (fl_design fb) f = Some fd ->
   factor_test fb (cand_of_rows rows) f fd = Ok (gs_ok fb rows f fd).
 Proof.
   intros fb rows f fd Hfr Hwf E. unfold factor_test, gs_ok.
   assert (Hf : f < length (fl_design fb)) by (apply nth_error_Some; congruence).
   pose proof Hwf as [Hlen Hrows]. rewrite row_of_rows by lia. cbn [bind].
-  destruct (dfrag_su fb f Hfr) as [Hsu _].
+  destruct (dbase_su fb f Hfr) as [Hsu _].
   assert (E0 : su_of fb f =? 0 = false) by (apply Nat.eqb_neq; lia). rewrite E0.
   rewrite (proj1 (Hrows f ltac:(lia))).
   rewrite (map_res_ok _ (gs_cell fb rows f fd)).
@@ -351,14 +346,14 @@ Proof.
     apply test_trial_d; auto. apply ceil_steps_lt; lia.
 Qed.
 
-Lemma mismatch_factors_d : forall fb rows, dfrag fb = true -> wf_rows_d fb rows ->
+Lemma mismatch_factors_d : forall fb rows, dbase fb = true -> wf_rows_d fb rows ->
   mismatch_factors fb (cand_of_rows rows)
   = Ok (flagged (map (fun p => gs_ok fb rows (fst p) (snd p)) (combine (seq 0 (length (fl_design fb))) (fl_design fb)))).
 Proof.
   intros fb rows Hfr Hwf. unfold mismatch_factors.
   rewrite (map_res_ok _ (fun p => gs_ok fb rows (fst p) (snd p))); [reflexivity|].
   intros p Hp. destruct (in_combine_seq _ _ _ Hp) as [f [Hf [Hfst Hnth]]]. simpl in Hfst.
-  destruct (dfrag_design fb f (snd p) Hfr Hnth) as [Hh _]. rewrite Hh, Hfst.
+  destruct (dbase_design fb f (snd p) Hfr Hnth) as [Hh _]. rewrite Hh, Hfst.
   apply factor_test_d; auto.
 Qed.
 
@@ -397,14 +392,14 @@ Proof.
 Qed.
 
 Lemma factor_ok_d : forall fb rows f fd,
-  dfrag fb = true -> wf_rows_d fb rows -> nth_error (fl_design fb) f = Some fd ->
+  dbase fb = true -> wf_rows_d fb rows -> nth_error (fl_design fb) f = Some fd ->
   (Sem.factor_ok (code_sem_d fb) rows f (dfactor_of fb (f, fd)) = true
    <-> V4f fb rows f /\ gs_ok fb rows f fd = true).
 Proof.
   intros fb rows f fd Hfr Hwf E.
   assert (Hf : f < length (fl_design fb)) by (apply nth_error_Some; congruence).
   pose proof Hwf as [Hlen Hrows]. destruct (Hrows f ltac:(lia)) as [HT _].
-  destruct (dfrag_su fb f Hfr) as [Hsu _].
+  destruct (dbase_su fb f Hfr) as [Hsu _].
   unfold Sem.factor_ok. cbn [Sem.s_trials code_sem_d]. unfold Sem.cell in *.
   rewrite HT, Nat.eqb_refl, andb_true_l. rewrite forallb_forall. unfold Sem.get_cell.
   cbn [Sem.f_sustain Sem.f_nlevels Sem.f_derived dfactor_of fst snd]. unfold Sem.cell in *.
@@ -447,7 +442,7 @@ Proof.
   rewrite E in Hc. simpl in Hc. apply nth_error_In in Hc. exact Hc.
 Qed.
 
-Lemma factors_sem_d : forall fb rows, dfrag fb = true -> wf_rows_d fb rows ->
+Lemma factors_sem_d : forall fb rows, dbase fb = true -> wf_rows_d fb rows ->
   (forallb (fun p => Sem.factor_ok (code_sem_d fb) rows (fst p) (snd p))
            (Sem.index_list (Sem.s_factors (code_sem_d fb))) = true
    <-> V4 fb rows /\ forallb (fun b => b) (gs_list fb rows) = true).
@@ -487,13 +482,13 @@ Definition sustain_row_ok_d (fb : flat) (f : nat) (row : list (option nat)) : bo
                     else true)
           (range_step (fl_trials fb) (su_of fb f)).
 
-Lemma sustain_model_d : forall fb rows, dfrag fb = true -> wf_rows_d fb rows ->
+Lemma sustain_model_d : forall fb rows, dbase fb = true -> wf_rows_d fb rows ->
   sustain_conforms fb (cand_of_rows rows)
   = Ok (forallb (fun f => sustain_row_ok_d fb f (nth f rows [])) (seq 0 (length (fl_design fb)))).
 Proof.
   intros fb rows Hfr [Hlen Hrows]. unfold sustain_conforms.
   apply all_res_ok. intros f Hf. apply in_seq in Hf.
-  destruct (dfrag_su fb f Hfr) as [Hsu Hmod].
+  destruct (dbase_su fb f Hfr) as [Hsu Hmod].
   destruct (Hrows f ltac:(lia)) as [HT _].
   destruct (su_of fb f <=? 1) eqn:E1.
   - apply Nat.leb_le in E1. assert (E : su_of fb f = 1) by lia.
@@ -511,11 +506,11 @@ Proof.
     rewrite get_nth by lia. reflexivity.
 Qed.
 
-Lemma sustain_model_V4_d : forall fb rows, dfrag fb = true -> wf_rows_d fb rows ->
+Lemma sustain_model_V4_d : forall fb rows, dbase fb = true -> wf_rows_d fb rows ->
   (forallb (fun f => sustain_row_ok_d fb f (nth f rows [])) (seq 0 (length (fl_design fb))) = true <-> V4 fb rows).
 Proof.
   intros fb rows Hfr Hwf. pose proof Hwf as [Hlen Hrows]. rewrite forallb_forall. unfold V4. split.
-  - intros H f Hf t Ht. destruct (dfrag_su fb f Hfr) as [Hsu Hmod].
+  - intros H f Hf t Ht. destruct (dbase_su fb f Hfr) as [Hsu Hmod].
     specialize (H f ltac:(apply in_seq; lia)). unfold sustain_row_ok_d in H. rewrite forallb_forall in H.
     set (su := su_of fb f) in *. set (q := t / su). set (j := t mod su).
     assert (Et : t = q * su + j) by (unfold q, j; rewrite Nat.mul_comm; apply Nat.div_mod; lia).
@@ -532,7 +527,7 @@ Proof.
       rewrite (cell_none fb rows f (q * su) Hwf ltac:(lia) ltac:(lia) Ha).
       symmetry. apply (cell_none fb rows f t Hwf ltac:(lia) Ht).
       rewrite <- (app_at_group fb f t Hsu). exact Ha.
-  - intros H f Hf. apply in_seq in Hf. destruct (dfrag_su fb f Hfr) as [Hsu Hmod].
+  - intros H f Hf. apply in_seq in Hf. destruct (dbase_su fb f Hfr) as [Hsu Hmod].
     unfold sustain_row_ok_d. apply forallb_forall. intros i Hi.
     unfold range_step in Hi. apply in_map_iff in Hi. destruct Hi as [q [<- Hq]]. apply in_seq in Hq.
     destruct (applies_to_trial fb f (q * su_of fb f / su_of fb f + 1)) eqn:Ea; [|reflexivity].
@@ -544,7 +539,7 @@ Proof.
     rewrite El. simpl. apply Nat.eqb_refl.
 Qed.
 
-Lemma sustain_conforms_V4_d : forall fb rows, dfrag fb = true -> wf_rows_d fb rows ->
+Lemma sustain_conforms_V4_d : forall fb rows, dbase fb = true -> wf_rows_d fb rows ->
   exists b, sustain_conforms fb (cand_of_rows rows) = Ok b /\ (b = true <-> V4 fb rows).
 Proof.
   intros fb rows H1 H2. eexists. split; [apply sustain_model_d; auto | apply sustain_model_V4_d; auto].
@@ -570,7 +565,7 @@ Proof.
 Qed.
 
 Lemma constraint_d : forall fb rows c,
-  dfrag fb = true -> wf_rows_d fb rows -> cfrag_d fb c = true ->
+  dbase fb = true -> wf_rows_d fb rows -> cfrag_d fb c = true ->
   exists b, constraint_conforms fb (cand_of_rows rows) c = Ok b /\
             (is_sustain c = true -> (b = true <-> V4 fb rows)) /\
             (V4 fb rows -> b = forallb (Sem.constraint_ok (code_sem_d fb) rows) (csem_n fb c)).
@@ -629,8 +624,8 @@ Proof.
     destruct (factor_preamble fb f) as [first|] eqn:EP; [|discriminate].
     apply Nat.eqb_eq in Hp. apply Nat.ltb_lt in Hf.
     destruct (nth_error (fl_design fb) f) as [fd|] eqn:E; [|apply nth_error_None in E; lia].
-    destruct (dfrag_design fb f fd Hfr E) as [_ [Hnl _]].
-    destruct (dfrag_su fb f Hfr) as [Hsu Hmod].
+    destruct (dbase_design fb f fd Hfr E) as [_ [Hnl _]].
+    destruct (dbase_su fb f Hfr) as [Hsu Hmod].
     destruct (sequential_total_d fb rows f first Hwf ltac:(lia) EP Hsu) as [b Hb].
     { rewrite (nlev_nth fb f fd E). auto. }
     simpl. rewrite Hb. exists b. split; auto. split; [discriminate|].
@@ -651,6 +646,23 @@ Proof.
 Qed.
 
 (** * Crossings that start after a preamble *)
+
+Lemma dfrag_no_hidden : forall fb, dfrag fb = true -> no_hidden fb.
+Proof. intros fb H f fd E. apply (dbase_design fb f fd (dfrag_dbase fb H) E). Qed.
+
+Lemma dfrag_cfrag : forall fb c, dfrag fb = true -> In c (fl_constraints fb) -> cfrag_d fb c = true.
+Proof.
+  intros fb c H Hin. unfold dfrag in H. rewrite !andb_true_iff in H. destruct H as [[_ H] _].
+  rewrite forallb_forall in H. auto.
+Qed.
+
+Lemma dfrag_xfrag : forall fb p, dfrag fb = true ->
+  In p (combine (seq 0 (length (fl_crossings fb))) (fl_crossings fb)) -> xfrag_d fb p = true.
+Proof.
+  intros fb p H Hin. unfold dfrag in H. rewrite !andb_true_iff in H. destruct H as [_ H].
+  rewrite forallb_forall in H. auto.
+Qed.
+
 
 Lemma row_by_name_ok_d : forall fb rows f, no_hidden fb -> wf_rows_d fb rows -> f < length (fl_design fb) ->
   exists row, row_by_name fb (cand_of_rows rows) f = Ok row /\ length row = fl_trials fb.
@@ -761,7 +773,7 @@ Theorem dfrag_mismatch_iff_valid : forall fb rows,
   dfrag fb = true -> wf_rows_d fb rows ->
   (no_mismatch fb (cand_of_rows rows) = true <-> Sem.valid_b (code_sem_d fb) rows = true).
 Proof.
-  intros fb rows Hfr Hwf.
+  intros fb rows Hfr Hwf. pose proof (dfrag_dbase fb Hfr) as Hb.
   set (S := code_sem_d fb).
   set (P := fun (c : fconstraint) (b : bool) =>
               (is_sustain c = true -> (b = true <-> V4 fb rows)) /\
@@ -787,7 +799,7 @@ Proof.
   { intros HV. unfold S at 2. cbn [Sem.s_constraints code_sem_d]. rewrite forallb_flat_map.
     clear HC HbsV4. induction HP as [|c0 b0 cs0 bs0 Hp0 Hps IH]; simpl; [tauto|].
     destruct Hp0 as [_ Hp0]. rewrite (Hp0 HV). rewrite !andb_true_iff, IH. tauto. }
-  pose proof (factors_sem_d fb rows Hfr Hwf) as HF.
+  pose proof (factors_sem_d fb rows Hb Hwf) as HF.
   (* the verdict *)
   assert (Hverdict : mismatch fb (cand_of_rows rows) = VLists (flagged (gs_list fb rows)) (flagged bs) xs).
   { unfold mismatch.
@@ -796,7 +808,7 @@ Proof.
       destruct (rows_entry _ _ Hp) as [Hi Hs]. rewrite Hs in E.
       rewrite (proj1 (proj2 Hwf _ Hi)) in E. unfold T in E. rewrite Nat.eqb_refl in E. discriminate. }
     rewrite E1. rewrite (wf_d_conversion fb rows Hwf). simpl.
-    rewrite (mismatch_factors_d fb rows Hfr Hwf). fold (gs_list fb rows).
+    rewrite (mismatch_factors_d fb rows Hb Hwf). fold (gs_list fb rows).
     unfold mismatch_constraints. rewrite HC. simpl. rewrite HX. reflexivity. }
   unfold no_mismatch. rewrite Hverdict.
   unfold Sem.valid_b. unfold Sem.cell in *.
